@@ -536,9 +536,11 @@ def jobs(tier):
             for b0 in range(0, NB, 2):  # split by the first entry's behaviour (pairs)
                 add("h_stack", N=2, failing=True, fix={"n": 2, "failing": fi, "k%d" % fi: kf}, b0r=(b0, b0 + 1))
     if not q:
-        for k0 in range(NK):
-            for k1 in range(NK):
-                add("h_stack", N=3, fix={"n": 3, "k0": k0, "k1": k1})
+        REP = (0, 1, 2, 4, 8)  # three entries: five representative kinds, every combination, all behaviours
+        for k0 in REP:
+            for k1 in REP:
+                for k2 in REP:
+                    add("h_stack", N=3, fix={"n": 3, "k0": k0, "k1": k1, "k2": k2})
     for o0 in range(len(OPS)):
         add("h_hist", L=(4 if q else 5), o0=o0)
     return J
@@ -547,7 +549,7 @@ def jobs(tier):
 LEVEL = "other"
 BOUNDS = {
     "quick": "stacks of 0..2 entries, each {entered async CM, entered sync CM, pushed async fn, pushed sync fn, sync callback with args, async callback with args, pushed (not entered) async CM, pushed sync CM, pushed callable object returning a coroutine, pushed partial(async def), callback object returning a coroutine, pushed function returning a non-coroutine awaitable, callback with keyword arguments only} x {falsy, truthy, raise new, raise new only when an exception is in flight, raise a new BaseException, raise a new exception object that is falsy}, block normal/raising, one entry whose enter fails; oracles: contextlib.AsyncExitStack and recursively built nested async-with; histories of 4 operations over {register, register an exit that raises, aclose, aclose from inside an except block, pop_all, with-block, with-block raising, aclose popped stack} followed by closing everything",
-    "thorough": "stacks of 3 entries, histories of 5 operations",
+    "thorough": "stacks of 3 entries over five representative kinds (entered async/sync CM, pushed async fn, sync callback, pushed callable object) x all behaviours, histories of 5 operations",
 }
 OUTSIDE = ["__context__/__cause__ chains", "4 entries", "exits that suspend (covered by C17/C18)"]
 NONTRIVIAL_RULE = ">=2 entries on the stack (histories: >=1 registration and >=2 operations)"
